@@ -36,7 +36,7 @@ from mirlib import BranchFacts, strip, deep_strip, show, walk, const_value
 from rulelib import dominating_edges
 from rulelib import (
     bool_facts, canon_nobb, cyclic_blocks, facts_at, fmt_path, must_pass, relations, return_assignments,
-    succeeded_calls, _norm_fact,
+    succeeded_calls, _norm_fact, accumulator_of,
 )
 import sigs
 
@@ -467,10 +467,10 @@ def _caps(b, F):
             continue
         op, x, y = pred[1], pred[2], pred[3]
         kx, ky = const_value(x), const_value(y)
-        if ky is not None and x[0] == "phi":
-            acc, k, o = x, ky, op
-        elif kx is not None and y[0] == "phi":
-            acc, k, o = y, kx, {"Lt": "Gt", "Le": "Ge", "Gt": "Lt", "Ge": "Le"}[op]
+        if ky is not None and accumulator_of(x) is not None:
+            acc, k, o = ("phi", accumulator_of(x)), ky, op
+        elif kx is not None and accumulator_of(y) is not None:
+            acc, k, o = ("phi", accumulator_of(y)), kx, {"Lt": "Gt", "Le": "Ge", "Gt": "Lt", "Ge": "Le"}[op]
         else:
             continue
         # which edge is the error edge?
